@@ -77,6 +77,7 @@ def base_sets():
     a = Mod("maa", None, feats=[Feat("f1"), Feat("f2", "f1")], grouping=True, typedef=True, identity=True, when=True, must=True, default=True)
     b = Mod("mbb", None, imports=[("maa", None)], augments=["maa"], deviations=[("maa", 1)], lrefs=["maa"], uses_td=["maa"], uses_grp=["maa"],
             idbase="maa", feats=[Feat("f1")], subs=[Sub("mbbsub", [Feat("s1", "f1")])], when=True, default=True)
+    b.subs[0].idimp = ("maa", None)
     c = Mod("mcc", "2020-02-02", imports=[("maa", None), ("mbb", None)], augments=["mbb"], lrefs=["mbb", "maa"], typedef=True, must=True)
     d = Mod("mdd", None, data=False, typedef=True, grouping=True, identity=True)
     e = Mod("mee", "2019-01-01", imports=[("mdd", None)], uses_td=["mdd"], idbase="mdd", feats=[Feat("f1"), Feat("f2"), Feat("f3", "f2")])
